@@ -307,6 +307,16 @@ const (
 func genKey(s pbt.Src) int { return s.Intn(rndKeys) - rndKeyOff }
 
 func genMap(s pbt.Src, maxLen int) []P {
+	// one map in sixteen (where the caller allows 20 pairs) is large: hundreds to a few thousand entries
+	if maxLen >= rndMaxLen && s.Intn(16) == 0 {
+		n := []int{63, 64, 65, 255, 256, 257, 1000, 2048}[s.Intn(8)]
+		a, b, nv := 1+s.Intn(5), s.Intn(7), 2+s.Intn(rndVals-1)
+		out := make([]P, n)
+		for i := range out {
+			out[i] = P{i - rndKeyOff, (a*i*i + b*i) % nv}
+		}
+		return out
+	}
 	return pbt.Seq(s, 0, maxLen, func(s pbt.Src) P { return P{genKey(s), s.Intn(rndVals)} })
 }
 
